@@ -105,7 +105,10 @@ const PINNED_INVALID: [(&str, &str); 4] = [
     ("Lua51", "local x = (1\n"),
 ];
 
-const TEMPLATES: [&str; 16] = [
+const TEMPLATES: [&str; 19] = [
+    "local f = function() goto continue end\n::continue::\n",
+    "local aaaaaaaaaaaa, bbbbbbbbbbbbbb = { key = function() return 1 end, other = 2 }, call(function() return { 1, 2, 3 } end)\n",
+    "x.y.z, w = aaaaaaaaaaaaaaaaaaaa + bbbbbbbbbbbbbbbbbbbbb * { field = cccccccccccc }, dddddddddddddddd and { eeeeeeee = 1 }\n",
     "if x then return end\n",
     "if x then\n  -- stylua: ignore\n  return   1\nend\n",
     "if x then\n  f(  )\nend\n",
@@ -141,13 +144,19 @@ fn ramp(family: usize, d: usize) -> String {
             }
             s
         }
-        _ => format!("local x = a{}\n", ":m(b.c[1])".repeat(d)),
+        5 => format!("local x = a{}\n", ":m(b.c[1])".repeat(d)),
+        6 => format!("{}x(){}\n", "run(function() ".repeat(d), " end)".repeat(d)),
+        7 => format!("{}1{}\n", "call({ key = function() return ".repeat(d), " end })".repeat(d)),
+        8 => format!("local x = {}1{}\n", "f(a, { g(".repeat(d), ") }, b)".repeat(d)),
+        _ => format!("{}x(){}\n", "obj:method(arg, function(p) ".repeat(d), " end)".repeat(d)),
     }
 }
 
+const N_RAMPS: usize = 10;
+
 pub fn n_items(w: &Work, ctx: &Ctx) -> usize {
     let seeded = if ctx.quick() { 600 } else { 12000 };
-    w.corpus.len() * 2 + TEMPLATES.len() + 6 + seeded
+    w.corpus.len() * 2 + TEMPLATES.len() + N_RAMPS + seeded
 }
 
 pub fn run_item(w: &Work, ctx: &mut Ctx, mut i: usize) {
@@ -230,22 +239,28 @@ pub fn run_item(w: &Work, ctx: &mut Ctx, mut i: usize) {
             total(ctx, &format!("c07:pinned-invalid:{k}"), text, &Cfg::with_syntax(syntax), None, "pinned-invalid");
         }
     }
-    if i < 6 {
+    if i < N_RAMPS {
         let mut prev: Option<u64> = None;
         let mut d = 4;
         let wd = if i == 3 { 40 } else { 120 };
-        while d <= 32 {
+        // callback / table ramps are steeper: smaller steps, stop at the first finding so that a
+        // super-polynomial regression is reported from a case that still terminates quickly
+        let (step, dmax) = if i >= 6 { (2, 24) } else { (4, 32) };
+        let findings_before = ctx.findings.len();
+        while d <= dmax && ctx.findings.len() == findings_before {
             let src = ramp(i, d);
             let mut c = Cfg::with_syntax("Lua51");
             c.column_width = wd;
             if let Some(t) = total(ctx, &format!("c07:ramp:{i}:d{d}"), &src, &c, None, "depth-ramp") {
                 if let Some(p) = prev {
                     // (d+4)/d <= 2 for d >= 4, so a cubic law gives at most 8x; allow 12x
-                    if p > 50 && t > 12 * p {
+                    // (steps of 2: (d+2)/d <= 1.5, cubic 3.4x; allow 6x)
+                    let bound = if step == 2 { 6 } else { 12 };
+                    if p > 50 && t > bound * p {
                         ctx.finding(
                             "step-growth",
                             &format!("ticks-growth:ramp{i}"),
-                            &format!("logical steps grew from {p} (depth {}) to {t} (depth {d}): more than polynomial", d - 4),
+                            &format!("logical steps grew from {p} (depth {}) to {t} (depth {d}): more than polynomial", d - step),
                             case_json(&format!("c07:ramp:{i}:d{d}"), &src, &c, None),
                         );
                     }
@@ -253,11 +268,36 @@ pub fn run_item(w: &Work, ctx: &mut Ctx, mut i: usize) {
                 prev = Some(t);
                 ctx.count_n(&format!("ramp{i}.ticks_at_d{d}"), t);
             }
-            d += 4;
+            d += step;
         }
         return;
     }
-    i -= 6;
+    i -= N_RAMPS;
+    // (g) generated programs x statement-aligned ranges x narrow and ordinary widths (seeded)
+    if i % 2 == 1 {
+        let mut r = Rng::derive(ctx.seed, 0xc7a, i as u64);
+        let syntax = *r.pick(&cfg::SYNTAXES);
+        let prog = crate::gen::program(&mut r, syntax);
+        let mut c = Cfg::random(&mut r, syntax, 1);
+        c.sort_requires = r.chance(1, 4);
+        if let Some(ast) = fmt::parse(&prog, &c) {
+            let infos = crate::stmts::collect(&ast);
+            if !infos.is_empty() {
+                for _ in 0..3 {
+                    let a = &infos[r.below(infos.len())];
+                    let b = &infos[r.below(infos.len())];
+                    let (s0, e0) = (a.start.min(b.start), a.end.max(b.end));
+                    let range = match r.below(4) {
+                        0 => (Some(s0), None),
+                        1 => (None, Some(e0)),
+                        _ => (Some(s0), Some(e0)),
+                    };
+                    total(ctx, &format!("c07:genrange:{}:{i}:{:?}", ctx.seed, range), &prog, &c, Some(range), "generated-range");
+                }
+            }
+        }
+        return;
+    }
     // (e) destroyed inputs (seeded)
     let mut r = Rng::derive(ctx.seed, 0xc07, i as u64);
     let a = &w.corpus[r.below(w.corpus.len())];
